@@ -52,6 +52,23 @@ def describe(st, m, oc):
 _DS = {'st': None, 'so': None}
 
 
+def structured(st, m, oc):
+    """the same script as data, for the native replay drivers"""
+    calls = []
+    for t in st.trace:
+        o = t['outcome']; e = {'kind': t['kind'], 'name': t['name'], 'outcome': o[0]}
+        if o[0] == 'raise':
+            e['cls'] = cls_name(m, m.eval(TYP(Val.addr(o[1])), model_completion=True))
+        for k in ('disc', 'forced'):
+            if t.get(k) is not None:
+                e[k] = z3.is_true(m.eval(t[k], model_completion=True))
+        calls.append(e)
+    out = {'calls': calls, 'exit': oc[0] if oc is not None else None}
+    if oc is not None and oc[0] in ('raise', 'exc'):
+        out['raised'] = cls_name(m, m.eval(TYP(Val.addr(oc[1])), model_completion=True))
+    return out
+
+
 def discharge(o, model_vars=None):
     """one solver per path (path condition asserted once), one push/check/pop per clause"""
     t0 = time.time()
@@ -70,8 +87,12 @@ def discharge(o, model_vars=None):
             res['script'] = describe(o.st, m, o.oc)
         except Exception as ex:      # description is best effort
             res['script'] = 'undescribed (%s)' % ex
+        try:
+            res['scenario'] = structured(o.st, m, o.oc)
+        except Exception as ex:
+            res['scenario'] = None
         mv = {}
-        for k, v in (model_vars or {}).items():
+        for k, v in dict(model_vars or {}, **getattr(o.st, 'model_vars', {})).items():
             try:
                 mv[k] = str(m.eval(v, model_completion=True))
             except Exception:
